@@ -576,7 +576,7 @@ func gbRandOrigin(r *RNG, o gbOpts) string {
 	if r.Chance(1, 10) {
 		L = r.PickInt([]int{1, 9, 10, 11, 59, 60, 61, 120})
 	}
-	if r.Chance(1, 40) {
+	if atScale(r, 40) {
 		// scale: a genome whose record is larger than 64 KiB (any buffer a reader starts with is refilled more than once
 		// while the ORIGIN lines go by)
 		L = r.Range(52000, 120000)
